@@ -70,7 +70,7 @@ theorem decInt_encInt (n : Nat) : decIntContent (encIntContent n) = some n := by
     · rw [if_pos hhi]
       have h0 : ¬ 128 ≤ (0 : UInt8).toNat := by decide
       simp only [decIntContent, h0, if_false]
-      have : ¬ ((0 : UInt8) = 0 ∧ b.toNat < 128) := by omega
+      have : ¬ (True ∧ b.toNat < 128) := by omega
       simp only [this, if_false]
       rw [beDec_zero_cons, hv]
     · rw [if_neg hhi]
